@@ -5,6 +5,7 @@ package qframe
 import (
 	"github.com/tobgu/qframe/config/csv"
 	"github.com/tobgu/qframe/config/groupby"
+	"github.com/tobgu/qframe/config/newqf"
 	"github.com/tobgu/qframe/internal/vx"
 	"github.com/tobgu/qframe/types"
 )
@@ -192,6 +193,14 @@ func c10invalid(f QFrame, which string) QFrame {
 			return h
 		}
 		return f.Slice(0, 0).Filter(Filter{Column: "e", Comparator: "ilike", Arg: "a(b"})
+	case "apply_second_after_failed_first": // after a failing instruction no later instruction runs (no callback)
+		return f.Apply(Instruction{Fn: weird{}, DstCol: "z"}, Instruction{Fn: func() int { c10cb(); return 1 }, DstCol: "y"}, Instruction{Fn: func(x int) int { c10cb(); return x }, DstCol: "w", SrcCol1: "a"})
+	case "filteredapply_second_after_failed_first":
+		return f.FilteredApply(Filter{Column: "a", Comparator: ">", Arg: 0}, Instruction{Fn: "nosuch", DstCol: "z", SrcCol1: "s"}, Instruction{Fn: func(x int) int { c10cb(); return x }, DstCol: "w", SrcCol1: "a"})
+	case "new_enum_on_int_column":
+		return New(map[string]interface{}{"a": []int{1, 2}, "s": []string{"x", "y"}}, newqf.Enums(map[string][]string{"a": nil}))
+	case "new_enum_on_const_bool":
+		return New(map[string]interface{}{"a": ConstBool{Val: true, Count: 2}, "s": []string{"x", "y"}}, newqf.Enums(map[string][]string{"a": {"x"}}))
 	case "aggregate_unknown_col":
 		return f.GroupBy(groupby.Columns("c")).Aggregate(Aggregation{Fn: "sum", Column: "zz"})
 	case "aggregate_unknown_fn":
